@@ -27,6 +27,60 @@ type outReturn struct {
 	serializer string    // dom.OuterHTML | dom.InnerHTML | domutil.InnerText | "" (constant / concatenation)
 	root       ssa.Value // argument of the serializer
 	textOnly   int       // 1: only reachable when textOnly is true, -1: only when false, 0: both
+	trimmed    bool      // the serializer cuts white space off both ends of what it returns
+}
+
+// innerSerializerKind recognises, by shape, a function that renders the children of its node
+// parameter one after the other and returns the concatenation (go-shiori/dom.InnerHTML and any
+// function of the module written like it): one forward sibling loop starting at FirstChild of the
+// first parameter, in which the cursor is rendered (html.Render / dom.OuterHTML) into a buffer,
+// and returns of that buffer's String() - "inner" - or of strings.TrimSpace of it - "inner-trimmed".
+func innerSerializerKind(f *ssa.Function) string {
+	if f == nil || len(f.Blocks) == 0 || len(f.Params) != 1 || f.Signature.Results().Len() != 1 {
+		return ""
+	}
+	if !strings.HasSuffix(f.Params[0].Type().String(), "html.Node") || f.Signature.Results().At(0).Type().String() != "string" {
+		return ""
+	}
+	loops := findSiblingLoops(f)
+	if len(loops) != 1 || loops[0].field != "NextSibling" {
+		return ""
+	}
+	rendered := false
+	for _, in := range instrsOf(f) {
+		if call, ok := in.(ssa.CallInstruction); ok && core.IsCallTo(call, "golang.org/x/net/html.Render", "github.com/go-shiori/dom.OuterHTML") {
+			for _, a := range call.Common().Args {
+				if a == ssa.Value(loops[0].phi) {
+					rendered = true
+				}
+			}
+		}
+	}
+	if !rendered {
+		return ""
+	}
+	kind := ""
+	for _, ret := range core.Returns(f) {
+		v := ret.Results[0]
+		if s, ok := core.ConstString(v); ok && s == "" {
+			continue
+		}
+		call, ok := v.(*ssa.Call)
+		if !ok || call.Call.StaticCallee() == nil {
+			return ""
+		}
+		switch call.Call.StaticCallee().String() {
+		case "strings.TrimSpace":
+			kind = "inner-trimmed"
+		case "(*bytes.Buffer).String", "(*strings.Builder).String":
+			if kind == "" {
+				kind = "inner"
+			}
+		default:
+			return ""
+		}
+	}
+	return kind
 }
 
 // outputFuncs lists the GenerateOutput methods of package webdoc (implementations of Element).
@@ -56,9 +110,16 @@ func outputReturns(p *core.Program, fn *ssa.Function) []outReturn {
 		if call, ok := ret.Results[0].(*ssa.Call); ok {
 			if f := call.Call.StaticCallee(); f != nil {
 				switch f.String() {
-				case "github.com/go-shiori/dom.OuterHTML", "github.com/go-shiori/dom.InnerHTML", core.ExpandKey(domutilPkg) + ".InnerText":
+				case "github.com/go-shiori/dom.OuterHTML", core.ExpandKey(domutilPkg) + ".InnerText":
 					o.serializer = strings.Replace(strings.Replace(f.String(), "github.com/go-shiori/", "", 1), core.ModPath+"/internal/", "", 1)
 					o.root = call.Call.Args[0]
+				default:
+					// inner renderings are recognised by shape (dom.InnerHTML, or a function written like it)
+					if k := innerSerializerKind(f); k != "" {
+						o.serializer = "dom.InnerHTML"
+						o.root = call.Call.Args[0]
+						o.trimmed = k == "inner-trimmed"
+					}
 				}
 			}
 		}
